@@ -88,6 +88,9 @@ type SeekPlanReader struct {
 	FailSeek int // fail the n-th Seek call (1-based), 0 = never
 }
 
+// StartAt positions the reader at an absolute offset before it is handed over.
+func (r *SeekPlanReader) StartAt(off int) { r.off = off }
+
 // Seek implements io.Seeker.
 func (r *SeekPlanReader) Seek(offset int64, whence int) (int64, error) {
 	r.Seeks++
